@@ -23,7 +23,57 @@ _GEN = {}
 _N = [0]
 
 
+def run_real_refine(inp):
+    """InitialAlignment.refine around one seed (the secondary correlation); the InitialAlignment is built the way
+    getInitialAlignment builds it, the seed position is given"""
+    import numpy as np
+    from src.correlation.optical_map import OpticalMap, InitialAlignment
+    from src.correlation.sequence_generator import SequenceGenerator
+    _N[0] += 2
+    sg = _GEN.setdefault((inp["res"], inp["blur"]), SequenceGenerator(inp["res"], inp["blur"]))
+    ref = OpticalMap(1000 + _N[0], inp["ref"]["len"], list(inp["ref"]["pos"]))
+    qry = OpticalMap(1001 + _N[0], inp["qry"]["len"], list(inp["qry"]["pos"]))
+    ia = InitialAlignment(np.array([]), qry, ref, [], inp["rev"], 0.)
+    try:
+        cr = ia.refine(inp["peak"], sg, inp["margin"], float(inp["pt"]))
+    except Exception as e:       # noqa: BLE001
+        return {"exc": type(e).__name__, "empty": False, "corr": [], "peaks": []}
+    return {"exc": "", "empty": False, "corr": [int(round(float(v) * SC)) for v in cr.correlation],
+            "peaks": [[int(p.position), int(round(float(p.height) * SC)), int(round(float(p.score) * SC))] for p in cr.peaks]}
+
+
+def refine_case(rng: random.Random):
+    """a seed next to a planted / noisy copy, default-like and small parameters"""
+    c = random_case(rng)
+    while c["qry"]["len"] > c["ref"]["len"] or len(c["qry"]["pos"]) < 2:
+        c = random_case(rng)
+    res = c["res"]
+    refpos = c["ref"]["pos"]
+    anchor = rng.choice(refpos)
+    peak = anchor + rng.choice([0, 0, res, -res, 3 * res, -2 * res + 1, 7])
+    if rng.random() < 0.1:
+        peak = rng.choice([0, res // 2, refpos[-1] - c["qry"]["len"] // 2])     # near either end: negative window start / short window
+    margin = rng.choice([0, res, 3 * res, 8 * res, 20 * res])
+    ones = len(c["qry"]["pos"])
+    pt = rng.choice([0, 1, 2, ones, ones - 1, max(1, ones // 2), 3 * ones])
+    return {"ref": c["ref"], "qry": c["qry"], "rev": c["rev"], "res": res, "blur": c["blur"], "peak": int(peak),
+            "margin": int(margin), "pt": int(pt), "pcount": 10, "md": res}
+
+
+def realistic_refine_case(rng: random.Random):
+    """default secondary parameters (100 / 4 / 16000 / 27) around the true locus of a molecule of 30-45 labels"""
+    c = realistic_case(rng)
+    while len(c["qry"]["pos"]) < 30:
+        c = realistic_case(rng)
+    xs = c["ref"]["pos"]
+    peak = rng.choice(xs[5:-40]) + rng.randint(-700, 700)
+    return {"ref": c["ref"], "qry": c["qry"], "rev": c["rev"], "res": 100, "blur": 4, "peak": int(peak), "margin": 16000,
+            "pt": 27, "pcount": 10, "md": 100}
+
+
 def run_real(inp):
+    if "peak" in inp:
+        return run_real_refine(inp)
     from src.correlation.optical_map import OpticalMap, EmptyInitialAlignment
     from src.correlation.sequence_generator import SequenceGenerator
     _N[0] += 2
@@ -141,6 +191,10 @@ def run_part(ctx: Ctx, mine: str, model: bool = True):
         try:
             mc_res["r"] = tlc.run_tlc("MC_Seeding", "MC_Seeding.cfg" if quick else "MC_Seeding_thorough.cfg", ctx.workdir,
                                       workers=6 if quick else 12, heap_gb=8)
+            mc_res["refine"] = tlc.run_tlc("MC_Refine", "MC_Refine.cfg", ctx.workdir, workers=6 if quick else 12, heap_gb=8)
+            probe = tlc.run_tlc("MC_Refine", "MC_Refine_x_probe.cfg", ctx.workdir, workers=2, allow_violation=True)
+            if probe.invariant_violated != "Inv_ProbeNoRefinedPeak":
+                raise tlc.MachineryError("MC_Refine: no behaviour ends with a refined peak (the invariants would be vacuous)")
             for inv in ("Inv_MirrorWithoutLattice", "Inv_PlantedWithoutLattice"):
                 x = tlc.run_tlc("MC_Seeding", f"MC_Seeding_x_{inv}.cfg", ctx.workdir, workers=2, allow_violation=True)
                 if x.invariant_violated != inv:
@@ -155,12 +209,18 @@ def run_part(ctx: Ctx, mine: str, model: bool = True):
     space = batch.export_by_print("MC_Seeding", "Export_Seeding.cfg", ctx.workdir, workers=4)
     rng.shuffle(space)
     space = space[:1500 if quick else 20000]
+    rspace = batch.export_by_print("MC_Refine", "Export_Refine.cfg", ctx.workdir, workers=4)
+    rng.shuffle(rspace)
+    rspace = rspace[:1000 if quick else 15000]
+    space = space + rspace
     cases = space + [random_case(rng) for _ in range(700 if quick else 12000)] \
-        + [realistic_case(rng) for _ in range(10 if quick else 150)]
+        + [realistic_case(rng) for _ in range(10 if quick else 150)] \
+        + [refine_case(rng) for _ in range(500 if quick else 9000)] \
+        + [realistic_refine_case(rng) for _ in range(6 if quick else 100)]
     records = [{"inp": c, "sc": SC, "obs": run_real(c)} for c in cases]
     verdicts, r = batch.validate("Trace_Seeding", "Trace_Seeding.cfg", ctx.workdir, records, name="seeding.ndjson")
     ctx.add_traces(len(records))
-    kinds = {k: v for k, v in batch.KIND_COUNTS.items() if k in ("empty", "aborted", "ties", "cut", "exact_locus")}
+    kinds = {k: v for k, v in batch.KIND_COUNTS.items() if k in ("empty", "aborted", "outside", "ties", "cut", "exact_locus", "refine")}
     note = {"real_calls_validated": len(records), "from_tlc_exported_space": len(space), "states": r.distinct,
             "wall_s": round(r.wall_s, 1), "situations_replayed": kinds, "other_property_clauses": {}, "drift": 0}
     for rec in records:
@@ -185,3 +245,4 @@ def run_part(ctx: Ctx, mine: str, model: bool = True):
         if "err" in mc_res:
             raise mc_res["err"]
         ctx.add_model("MC_Seeding", mc_res["r"])
+        ctx.add_model("MC_Refine", mc_res["refine"])
